@@ -209,9 +209,9 @@ type vfc10Req struct {
 
 // vfc10Tune sets the request-time knobs of the store (they are read at the start of every call).
 func vfc10Tune(rng *rand.Rand, st *BucketStore) string {
-	st.enabledLazyExpandedPostings = rng.Intn(2) == 0
-	st.seriesMatchRatio = []float64{0.3, 0.9, 0.99}[rng.Intn(3)]
-	st.postingGroupMaxKeySeriesRatio = []float64{0, 0, 0.05, 2}[rng.Intn(4)]
+	st.enabledLazyExpandedPostings = rng.Intn(3) != 0
+	st.seriesMatchRatio = []float64{0.5, 0.99, 0.999}[rng.Intn(3)]
+	st.postingGroupMaxKeySeriesRatio = []float64{0, 0, 0.02, 2}[rng.Intn(4)]
 	st.seriesBatchSize = []int{1, 3, 10000}[rng.Intn(3)]
 	lazy := "off"
 	if st.enabledLazyExpandedPostings {
@@ -257,9 +257,9 @@ func vfc10RunFixture(t *testing.T, r *vfkit.Run, c int, rng *rand.Rand, nReq int
 		}
 	}()
 	cfgs := []vfc07StoreCfg{
-		{cache: "none", sampling: 32, hints: true},
-		{cache: "large", sampling: []int{1, 2}[rng.Intn(2)], estSeries: []uint64{16, 48, 200}[rng.Intn(3)], estChunk: []uint64{40, 200, 1000}[rng.Intn(3)], pooled: true, gap: []uint64{1, 64, 0}[rng.Intn(3)], lazyReader: rng.Intn(2) == 0},
-		{cache: "tiny", sampling: []int{1, 2, 32}[rng.Intn(3)], estSeries: []uint64{0, 24, 100}[rng.Intn(3)], estChunk: []uint64{0, 64, 300}[rng.Intn(3)], gap: []uint64{0, 16, 4096}[rng.Intn(3)]},
+		{cache: "none", sampling: 32, hints: true, estSeries: []uint64{0, 8, 16}[rng.Intn(3)]},
+		{cache: "large", sampling: []int{1, 2}[rng.Intn(2)], estSeries: []uint64{8, 16, 48}[rng.Intn(3)], estChunk: []uint64{40, 200, 1000}[rng.Intn(3)], pooled: true, gap: []uint64{1, 64, 0}[rng.Intn(3)], lazyReader: rng.Intn(2) == 0},
+		{cache: "tiny", sampling: []int{1, 2, 32}[rng.Intn(3)], estSeries: []uint64{16, 24, 100}[rng.Intn(3)], estChunk: []uint64{0, 64, 300}[rng.Intn(3)], gap: []uint64{0, 16, 4096}[rng.Intn(3)]},
 	}
 	var stores []*BucketStore
 	for _, cfg := range cfgs {
@@ -276,7 +276,11 @@ func vfc10RunFixture(t *testing.T, r *vfkit.Run, c int, rng *rand.Rand, nReq int
 		if replay {
 			rq = history[rng.Intn(len(history))]
 		} else {
-			rq.ms = vfc07GenMatchers(rng, fx.u, 0.1)
+			if rng.Intn(5) < 2 {
+				rq.ms = vfc07GenMatchersMulti(rng, fx.u, 0.05)
+			} else {
+				rq.ms = vfc07GenMatchers(rng, fx.u, 0.1)
+			}
 			rq.mint, rq.maxt = fx.vfc07Range(rng)
 			rq.skip = rng.Intn(100) < 15
 			want, err := vfc10Reference(refs, vfc07Proms(rq.ms), rq.mint, rq.maxt)
@@ -317,7 +321,7 @@ func vfc10RunFixture(t *testing.T, r *vfkit.Run, c int, rng *rand.Rand, nReq int
 					}
 					return m
 				}
-				class := vfc07Shapes(rq.ms)
+				class := vfc07Class(rq.ms)
 				if err != nil {
 					r.Violation(c, fmt.Sprintf("series-error:%s:%s", vfc07Code(err), class),
 						fmt.Sprintf("BucketStore.Series failed with %v for %s [%d,%d] although the TSDB read of the blocks succeeds", err, vfc07MatchersString(rq.ms), rq.mint, rq.maxt),
